@@ -26,6 +26,13 @@ import (
 	"verifharness/internal/cq"
 	"verifharness/internal/framefmt"
 	"verifharness/internal/macfmt"
+	"verifharness/internal/noise"
+	"verifharness/internal/reuse"
+)
+
+var (
+	nr     *cq.RNG
+	reused reuse.Receiver
 )
 
 // guard runs f on a private copy of in and reports panic / slow call / modified input.
@@ -79,6 +86,9 @@ func phyCase(s *cases.Set, b []byte, kind string) {
 			o = cq.Ok(framefmt.Phy(p, framefmt.DecodedFOptsLen(b)))
 		}
 	}()
+	cases.End()
+	noise.Step(nr)
+	reused.Decode(s, nr, b, o)
 	s.Add(cases.Case{Term: fmt.Sprintf("CPhy %s %s", cq.Bytes(b), o), Key: fmt.Sprintf("phy:%x", b), Kind: kind, Nontrivial: o != cq.Err,
 		Replay: map[string]interface{}{"api": "PHYPayload.UnmarshalBinary", "bytes": fmt.Sprintf("%x", b)}})
 }
@@ -165,6 +175,10 @@ func cflistCase(s *cases.Set, b []byte) {
 
 // child mode: register a (possibly negative) proprietary size and decode a stream; the parent kills it on timeout.
 func child(args []string) {
+	if args[0] == "firstkey" {
+		childFirstKey(args[1], args[2])
+		return
+	}
 	up := args[0] == "true"
 	cid, _ := strconv.Atoi(args[1])
 	size, _ := strconv.Atoi(args[2])
@@ -175,6 +189,79 @@ func child(args []string) {
 		MACPayload: &lorawan.MACPayload{FPort: &port, FRMPayload: []lorawan.Payload{&lorawan.DataPayload{Bytes: []byte{byte(cid), 1, 2, 3}}}}}
 	err = phy.DecodeFRMPayloadToMACCommands()
 	fmt.Printf("decoded err=%v n=%d\n", err != nil, len(phy.MACPayload.(*lorawan.MACPayload).FRMPayload))
+}
+
+// childFirstKey: the very first cipher use of a process, with the given key ("zero" or a hex byte
+// repeated 16 times), through one decrypt-then-decode entry point.
+func childFirstKey(entry, keyName string) {
+	var key lorawan.AES128Key
+	if keyName != "zero" {
+		v, _ := strconv.ParseUint(keyName, 16, 8)
+		for i := range key {
+			key[i] = byte(v)
+		}
+	}
+	port := uint8(0)
+	one := uint8(1)
+	switch entry {
+	case "DecryptJoinAcceptPayload":
+		phy := lorawan.PHYPayload{MHDR: lorawan.MHDR{MType: lorawan.JoinAccept}, MACPayload: &lorawan.DataPayload{Bytes: []byte{1, 2, 3, 4, 5, 6, 7, 8, 9, 10, 11, 12}}}
+		err := phy.DecryptJoinAcceptPayload(key)
+		fmt.Printf("err=%v\n", err != nil)
+	case "DecryptFRMPayload-port0":
+		phy := lorawan.PHYPayload{MHDR: lorawan.MHDR{MType: lorawan.UnconfirmedDataUp},
+			MACPayload: &lorawan.MACPayload{FPort: &port, FRMPayload: []lorawan.Payload{&lorawan.DataPayload{Bytes: []byte{2, 9, 9}}}}}
+		err := phy.DecryptFRMPayload(key)
+		fmt.Printf("err=%v\n", err != nil)
+	case "DecryptFRMPayload-port1":
+		phy := lorawan.PHYPayload{MHDR: lorawan.MHDR{MType: lorawan.UnconfirmedDataDown},
+			MACPayload: &lorawan.MACPayload{FPort: &one, FRMPayload: []lorawan.Payload{&lorawan.DataPayload{Bytes: []byte{1, 2, 3, 4, 5, 6, 7, 8, 9, 10, 11, 12, 13, 14, 15, 16, 17}}}}}
+		err := phy.DecryptFRMPayload(key)
+		fmt.Printf("err=%v\n", err != nil)
+	case "DecryptFOpts":
+		phy := lorawan.PHYPayload{MHDR: lorawan.MHDR{MType: lorawan.UnconfirmedDataUp},
+			MACPayload: &lorawan.MACPayload{FHDR: lorawan.FHDR{FOpts: []lorawan.Payload{&lorawan.DataPayload{Bytes: []byte{2, 3, 7}}}}}}
+		err := phy.DecryptFOpts(key)
+		fmt.Printf("err=%v\n", err != nil)
+	case "EncryptFRMPayload":
+		_, err := lorawan.EncryptFRMPayload(key, true, lorawan.DevAddr{1, 2, 3, 4}, 1, []byte{1, 2, 3})
+		fmt.Printf("err=%v\n", err != nil)
+	}
+}
+
+// firstKeyProbes runs every decrypt entry point as the first cipher use of a fresh process.
+func firstKeyProbes(s *cases.Set) {
+	n := 0
+	for _, entry := range []string{"DecryptJoinAcceptPayload", "DecryptFRMPayload-port0", "DecryptFRMPayload-port1", "DecryptFOpts", "EncryptFRMPayload"} {
+		for _, k := range []string{"zero", "ff", "01"} {
+			n++
+			cmd := exec.Command(os.Args[0], "--child", "firstkey", entry, k)
+			var out bytes.Buffer
+			cmd.Stdout, cmd.Stderr = &out, &out
+			_ = cmd.Start()
+			done := make(chan error, 1)
+			go func() { done <- cmd.Wait() }()
+			var what string
+			select {
+			case err := <-done:
+				if err != nil {
+					o := strings.TrimSpace(out.String())
+					if len(o) > 400 {
+						o = o[:400]
+					}
+					what = "crashes: " + o
+				}
+			case <-time.After(5 * time.Second):
+				_ = cmd.Process.Kill()
+				what = "does not return (killed after 5 s)"
+			}
+			if what != "" {
+				s.Fail(cases.GoFail{Key: "first-call-in-process:" + entry + ":key=" + k, What: entry + " as the first cipher use of a process, key " + k + ": " + what,
+					Replay: map[string]interface{}{"entry": entry, "key": k, "how": "fresh process, no earlier library call"}})
+			}
+		}
+	}
+	s.Extra["first_call_probes"] = n
 }
 
 func main() {
@@ -189,6 +276,8 @@ func main() {
 		"malformed stream into every decoding entry point: uniform random bytes 0..512, truncations / extensions / bit flips of valid encodings; frame decode (binary, base64 text), MAC-command stream decode and decrypt-then-decode with random keys, join-accept decrypt, JoinAcceptPayload, CFList, single MAC commands, the four application-layer Commands decoders, backend HEXBytes / Frequency / Percentage / ISO8601Time / payload JSON; each call under recover() with a 200 ms budget and an input-buffer comparison; negative proprietary sizes in a child process with a 5 s kill timer. Cases evaluated in Coq: frame, stream, command, join-accept payload, CFList (others are Go-side properties). Non-trivial: inputs a decoder accepts.")
 	s.ShardSize = 300
 	s.Watchdog(3 * time.Second)
+	nr = cq.NewRNG(seed ^ 0x9e3779b97f4a7c15)
+	firstKeyProbes(s)
 	n := 120
 	if thorough {
 		n = 4000
@@ -290,7 +379,9 @@ func main() {
 			guard(s, "PHYPayload.UnmarshalText", txt, func(x []byte) { var q lorawan.PHYPayload; _ = q.UnmarshalText(x) })
 			// decrypt-then-decode with any key
 			var key lorawan.AES128Key
-			copy(key[:], r.Bytes(16))
+			if r.Intn(4) != 0 {
+				copy(key[:], r.Bytes(16))
+			}
 			guard(s, "decode+DecryptFOpts+DecryptFRMPayload", m, func(x []byte) {
 				var q lorawan.PHYPayload
 				if q.UnmarshalBinary(x) == nil {
